@@ -113,3 +113,84 @@ func runNumLitCases(seed uint64, n int, outDir string, extra map[string]interfac
 	extra["jsnum_literals"] = hist
 	extra["jsnum_rewritten"] = changed
 }
+
+var strPieces = []string{
+	"a", "b", "z", "0", "1", "7", "8", "9", " ", "'", "\"", "`", "$", "{", "}", "${", "$\\{", "\\$", "\\${", "\\\\", "\\'", "\\\"", "\\`",
+	"\\n", "\\r", "\\t", "\\b", "\\f", "\\v", "\\0", "\\00", "\\000", "\\1", "\\7", "\\12", "\\42", "\\47", "\\140", "\\134", "\\177", "\\200", "\\377", "\\400", "\\015", "\\08", "\\8", "\\9", "\\44", "\\61",
+	"\\x41", "\\x0a", "\\x0A", "\\x22", "\\x27", "\\x60", "\\x5c", "\\x00", "\\x7f", "\\x80", "\\xff", "\\x4", "\\xg1", "\\x24", "\\x31", "\\x38",
+	"\\u0041", "\\u000a", "\\u000A", "\\u000d", "\\u0022", "\\u0027", "\\u0060", "\\u005c", "\\u0000", "\\u00e9", "\\u20ac", "\\ud83d", "\\ude00", "\\uD800", "\\uffff", "\\u004", "\\u0024", "\\u0039",
+	"\\u{41}", "\\u{a}", "\\u{A}", "\\u{0a}", "\\u{000a}", "\\u{22}", "\\u{27}", "\\u{60}", "\\u{0}", "\\u{000}", "\\u{1F600}", "\\u{10FFFF}", "\\u{10FFFE}", "\\u{110000}", "\\u{}", "\\u{41", "\\u{D800}", "\\u{0000041}", "\\u{24}", "\\u{5c}", "\\u{32}",
+	"\\\n", "\\\r", "\\\r\n", "\\\xe2\x80\xa8", "\\\xe2\x80\xa9", "\\\xe2\x80\xaa", "\\\xe2",
+	"\\a", "\\q", "\\-", "\\/", "\\(", "\\e", "\\<", "\\u", "\\x", "\\ ", "\\\xc3\xa9",
+	"<", "</", "</script>", "<\\/script>", "</script", "</SCRIPT>", "<!--", "\xc3\xa9", "\xe2\x82\xac", "\xf0\x9f\x98\x80",
+}
+
+// runStrLitCases: string literals built from every escape form, both delimiters, allowTemplate on and off: the model must
+// give the bytes of the real minifyString (jsstr), and the statement of the value theorem is evaluated on each (jsstrv).
+func runStrLitCases(seed uint64, n int, outDir string, extra map[string]interface{}) {
+	r := vh.NewRand(seed ^ 0x7374)
+	fin, _ := os.OpenFile(filepath.Join(outDir, "cases.in"), os.O_APPEND|os.O_WRONLY, 0o644)
+	fout, _ := os.OpenFile(filepath.Join(outDir, "cases.go.out"), os.O_APPEND|os.O_WRONLY, 0o644)
+	fsrc, _ := os.OpenFile(filepath.Join(outDir, "cases.src"), os.O_APPEND|os.O_WRONLY, 0o644)
+	defer fin.Close()
+	defer fout.Close()
+	defer fsrc.Close()
+	changed, templ, panics := 0, 0, 0
+	for k := 0; k < n; k++ {
+		q := "\"'"[r.Intn(2)]
+		var b strings.Builder
+		b.WriteByte(q)
+		m := r.Intn(7)
+		if r.Intn(10) == 0 {
+			m = r.Intn(30)
+		}
+		for i := 0; i < m; i++ {
+			p := strPieces[r.Intn(len(strPieces))]
+			if len(p) == 1 && p[0] == q { // an unescaped delimiter would end the literal
+				p = "\\" + p
+			}
+			b.WriteString(p)
+		}
+		b.WriteByte(q)
+		lit := b.String()
+		if r.Intn(60) == 0 {
+			lit = lit[:r.Intn(len(lit)+1)]
+		}
+		for _, tmpl := range []bool{false, true} {
+			out, pan := func() (res []byte, pan bool) {
+				defer func() {
+					if p := recover(); p != nil {
+						pan = true
+					}
+				}()
+				return minjs.VerifMinifyString([]byte(lit), tmpl), false
+			}()
+			if pan {
+				panics++
+				continue
+			}
+			t := "0"
+			if tmpl {
+				t = "1"
+			}
+			fmt.Fprintf(fin, "jsstr\t%s\t%s\n", t, hexd([]byte(lit)))
+			fmt.Fprintf(fout, "%s\n", hexd(out))
+			fmt.Fprintf(fsrc, "x0=%s\n", strings.ReplaceAll(strings.ReplaceAll(lit, "\n", "\\n"), "\r", "\\r"))
+			// the value statement: "skip" (input not a valid literal) and "ok" are both fine
+			fmt.Fprintf(fin, "jsstrv\t%s\t%s\n", t, hexd([]byte(lit)))
+			fmt.Fprintf(fsrc, "x0=%s\n", strings.ReplaceAll(strings.ReplaceAll(lit, "\n", "\\n"), "\r", "\\r"))
+			okLine := "ok"
+			fmt.Fprintf(fout, "%s\n", okLine)
+			if string(out) != lit {
+				changed++
+			}
+			if len(out) > 0 && out[0] == '`' {
+				templ++
+			}
+		}
+	}
+	extra["jsstr_literals"] = 2 * n
+	extra["jsstr_rewritten"] = changed
+	extra["jsstr_written_as_template"] = templ
+	extra["jsstr_panics"] = panics
+}
